@@ -169,7 +169,8 @@ def eng_cli(pid, tier, wd, known, replay=None):
             descs.append(d)
             # model-free oracle (C17 wording)
             why = []
-            allowed = {os.path.join(n, prefix + "wire_gen.go") for n in pkgs if ref[(n, opts)][1] is not None and ref[(n, opts)][0] == 0} if cmd == "gen" else set()
+            # "has injectors" is read off the sources (a package of PKGS has injectors iff it has a wire.go), not off what the tool wrote
+            allowed = {os.path.join(n, prefix + "wire_gen.go") for n in pkgs if "wire.go" in PKGS[n] and ref[(n, opts)][0] == 0} if cmd == "gen" else set()
             if set(changed) - allowed:
                 why.append("%s modified files outside its contract: %s" % (cmd, sorted(set(changed) - allowed)))
             anyerr = any(ref[(n, opts)][0] != 0 for n in pkgs) or bad_pattern
@@ -201,6 +202,8 @@ def eng_cli(pid, tier, wd, known, replay=None):
         for cmd in ("gen", "diff"):
             cases.append((cmd, ["ok1", "bad"], o, {"ok1": "stale", "bad": "stale"}))
             cases.append((cmd, ["ok2"], o, {"ok2": "equal"}))
+            cases.append((cmd, ["noinj"], o, {"noinj": "absent"}))
+            cases.append((cmd, ["ok1", "noinj", "bad"], o, {"ok1": "absent", "noinj": "absent", "bad": "absent"}))
     # mixed priors: stale + failing in one invocation (status priority), equal + stale
     cases.append(("diff", ["bad", "ok1"], (), {"ok1": "stale"}))
     cases.append(("diff", ["ok1", "bad"], (), {"ok1": "absent"}))
